@@ -184,15 +184,15 @@ func (r *run) webPart(grid []credKind) error {
 					r.fail("zz-driver-io:"+name, "the driver could not complete a request against the "+name+" server: "+it.err, it.rq.String())
 					continue
 				}
-				public := it.rq.path == "/healthz" || strings.HasPrefix(it.rq.path, "/debug/pprof/")
+				public := it.rq.path == "/healthz"
 				if (variant.user != "" || variant.pass != "") && it.rq.auth != right && !public &&
 					it.status != 401 && !it.routerMiss && it.status != 405 {
 					r.fail("served-without-credentials:"+name,
 						fmt.Sprintf("%s configured with %q:%q answered %d to %s %s carrying Authorization %q", name, variant.user, variant.pass, it.status, it.rq.method, it.rq.path, it.rq.auth),
 						it.rq.String())
 				}
-				if variant.flags && it.rq.auth == "" && (it.rq.path == "/debug/pprof/cmdline") && it.status == 200 {
-					r.notes["pprof_served_without_credentials:"+name] = true
+				if variant.flags && (variant.user != "" || variant.pass != "") && it.rq.auth == "" && strings.HasPrefix(it.rq.path, "/debug/pprof/") {
+					r.notes["pprof_without_credentials_status:"+name+":"+it.rq.path] = it.status
 				}
 				r.addCase(fmt.Sprintf("CWeb %d %s %s %s %d", which, flagsCoq, csym, it.rq.coq(r.sym), it.status), it.rq.auth != "",
 					"web:"+name, fmt.Sprintf("web:%s:status-%d", name, it.status))
